@@ -103,7 +103,7 @@ Lemma frag_stmts_fun fl k sc name fv kd t n params rt body b sp sp2 rest :
   if (fresh_id pv sv bound fl sc fv && params_ok pv sv bound ((fv, KF (param_kinds params) (kind_of_ty rt)) :: fl) sc (param_ids params)
       && fbody_check (frag_stmts pv sv bound (snd (bind_scope (param_ids params) (param_kinds params) sc ((fv, KF (param_kinds params) (kind_of_ty rt)) :: fl))) k
                                  (fst (bind_scope (param_ids params) (param_kinds params) sc ((fv, KF (param_kinds params) (kind_of_ty rt)) :: fl))))
-                     (fun fl1 sc1 e => frag_fexpr pv sv bound fl1 k sc1 e) k body (kind_of_ty rt))%bool
+                     (fun fl1 sc1 e => frag_fexpr pv sv bound fl1 k sc1 e) (fun fl1 sc1 e => frag_expr pv sv bound fl1 k sc1 e) k body (kind_of_ty rt))%bool
   then frag_stmts pv sv bound ((fv, KF (param_kinds params) (kind_of_ty rt)) :: fl) k sc rest else None.
 Proof. reflexivity. Qed.
 Lemma frag_expr_call fl k sc f fsp args sp :
@@ -727,11 +727,74 @@ Proof.
         apply (cshape_plain u l1 (IAssign x rv) c1 c1); [lia | reflexivity | reflexivity | apply used_plain].
 Qed.
 
-(* the body of a function: its last statement, if an expression, is returned *)
-Lemma L_fb_of g : (forall fl, L_expr pv sv bound u fl g) -> (forall fl, L_stmts pv sv bound u fl g) ->
-  (forall fl, L_fexpr pv sv bound u fl g) -> (forall fl g', g = S g' -> L_fexpr pv sv bound u fl g') -> forall fl, L_fb pv sv bound u fl g.
+(* guards  if c do ret <function value> end *)
+Lemma guard_parts_inv s cnd fx : guard_parts s = Some (cnd, fx) ->
+  exists sp1 sp2 sp3 sp4, s = SStatementExpression (EIf [IfBranch (Some cnd) [SRet (Some fx) sp1] sp2] sp3) sp4.
 Proof.
-  intros IHe IHs IHX IHXp fl k body rk ctx c code c' sc l Hlow Hcheck. unfold lower_fbody in Hlow.
+  intros H. unfold guard_parts in H.
+  repeat match type of H with
+         | context [match ?x with _ => _ end] => is_var x; destruct x; try discriminate H
+         end.
+  inversion H; subst. eauto.
+Qed.
+
+Lemma take_init_app : forall l i g, take_init l = (i, g) -> l = i ++ g.
+Proof.
+  induction l as [|s t IH]; intros i g H; cbn [take_init] in H.
+  - inversion H; reflexivity.
+  - destruct (guard_parts s); [inversion H; reflexivity|].
+    destruct (take_init t) as [i' g'] eqn:Ht. inversion H; subst. cbn [app]. f_equal. apply IH. reflexivity.
+Qed.
+
+Lemma mapM_app_split {A B} (f : A -> M B) a b : forall c r c',
+  mapM f (a ++ b) c = Ok (r, c') ->
+  exists ra c1 rb, mapM f a c = Ok (ra, c1) /\ mapM f b c1 = Ok (rb, c') /\ r = ra ++ rb.
+Proof.
+  induction a as [|x a IH]; intros c r c' H.
+  - exists [], c, r. split; [reflexivity | split; [exact H | reflexivity]].
+  - cbn [app] in H. apply mapM_cons_ok in H as (y & c2 & ys & Hy & Hys & ->).
+    destruct (IH _ _ _ Hys) as (ra & c1 & rb & Ha & Hb & ->).
+    exists (y :: ra), c1, rb. split; [|split; [exact Hb | reflexivity]].
+    cbn [mapM]. unfold IR.bind, IR.ret. rewrite Hy, Ha. reflexivity.
+Qed.
+
+Lemma L_guard g :
+  (forall g', (g' <= g)%nat -> forall fl, L_expr pv sv bound u fl g') -> (forall g', (g' <= g)%nat -> forall fl, L_fexpr pv sv bound u fl g') ->
+  forall fl k s cnd fx K ctx c code c' sc l,
+    guard_parts s = Some (cnd, fx) -> statement g s ctx c = Ok (code, c') ->
+    frag_expr pv sv bound fl k sc cnd = true -> frag_fexpr pv sv bound fl k sc fx = Some K ->
+    exists b l', cshape u l code b l' c c'.
+Proof.
+  intros He Hx fl k s cnd fx K ctx c code c' sc l Hg Hlow Hfc Hff.
+  destruct (guard_parts_inv _ _ _ Hg) as (sp1 & sp2 & sp3 & sp4 & ->).
+  destruct g as [|g1]; [discriminate Hlow|]. cbn [statement] in Hlow. mon Hlow.
+  destruct g1 as [|g2]; [discriminate Hm|]. cbn [expression] in Hm. mon Hm. fresh_all. cbn [fst].
+  apply mapM_cons_ok in Hm1 as (y & c1 & ys & Hy & Hnil & ->). apply mapM_nil_ok in Hnil as [-> ->].
+  unfold lower_if_branch in Hy. mon Hy. destruct a as [code_c vc]. cbn [fst snd] in *.
+  unfold lower_eblock in Hm0. cbn [rev app] in Hm0. unfold lower_list in Hm0. mon Hm0.
+  apply mapM_cons_ok in Hm1 as (y2 & c2 & ys2 & Hy2 & Hnil & ->). apply mapM_nil_ok in Hnil as [-> ->].
+  destruct g2 as [|g3]; [discriminate Hy2|]. cbn [statement] in Hy2. mon Hy2. destruct a as [code_f rv]. cbn [fst snd concat map] in *.
+  rewrite !app_nil_r.
+  destruct (He (S g3) ltac:(lia) fl k cnd ctx _ code_c vc _ sc l Hm Hfc) as (bc & l1 & Hsc & _).
+  destruct (Hx g3 ltac:(lia) fl k fx K ctx _ code_f rv _ sc l1 Hm0 Hff) as (bf & l2 & Hsf & _).
+  pose proof Hsc as (_ & ? & _). pose proof Hsf as (_ & ? & _).
+  eexists _, _.
+  eapply cshape_cons'; [apply (cshape_plain u l (IDefine c) c _); [lia | reflexivity | reflexivity | apply used_plain]|].
+  match goal with |- cshape _ _ ?code _ _ _ _ => replace code with (code_c ++ (IIf vc :: (code_f ++ [IReturn rv]) ++ IElse :: [] ++ [IEnd])) end.
+  - eapply cshape_app'; [eapply cshape_widen; [exact Hsc | lia | lia]|].
+    eapply cshape_ifelse; [|apply cshape_nil'].
+    + eapply cshape_app'; [eapply cshape_widen; [exact Hsf | lia | lia]|].
+      apply (cshape_plain u l2 (IReturn rv) c _); [lia | reflexivity | reflexivity | reflexivity].
+    + lia.
+  - repeat (first [rewrite <- app_assoc | progress cbn [app]]). reflexivity.
+Qed.
+
+(* the body of a function: its last statement, if an expression, is returned *)
+Lemma L_fb_of g : (forall g', (g' <= g)%nat -> forall fl, L_expr pv sv bound u fl g') -> (forall fl, L_stmts pv sv bound u fl g) ->
+  (forall g', (g' <= g)%nat -> forall fl, L_fexpr pv sv bound u fl g') -> forall fl, L_fb pv sv bound u fl g.
+Proof.
+  intros He IHs Hx fl k body rk ctx c code c' sc l Hlow Hcheck. unfold lower_fbody in Hlow.
+  pose proof (fun fl0 => He g (Nat.le_refl g) fl0) as IHe. pose proof (fun fl0 => Hx g (Nat.le_refl g) fl0) as IHX.
   destruct (rev body) as [|last init_rev] eqn:Hrev.
   - apply ret_ok in Hlow as [<- <-]. eexists _, _. apply cshape_nil.
   - assert (Hbody : body = rev init_rev ++ [last]) by (rewrite <- (rev_involutive body), Hrev; reflexivity).
@@ -754,26 +817,42 @@ Proof.
       pose proof Hs2 as (_ & ? & _).
       eexists _, _. eapply cshape_app; [exact Hs1|]. eapply cshape_app; [exact Hs2|].
       apply (cshape_plain u l2 (IReturn rv) c' c'); [lia | reflexivity | reflexivity | reflexivity].
-    + (* a function result: the last statement is a function-valued expression, or ret of one *)
+    + (* a function result: statements that stay, guards, then a function-valued expression or ret of one *)
       rewrite split_last_app in Hcheck.
       destruct (tail_fexpr last) as [fx|] eqn:Htl; [|discriminate Hcheck].
+      destruct (take_init (rev init_rev)) as [init guards] eqn:Hti.
       apply andb_prop in Hcheck as [_ Hcheck].
-      destruct (frag_stmts pv sv bound fl k sc (rev init_rev)) as [[sc1 fl1]|] eqn:Hfi; [|discriminate Hcheck].
+      destruct (frag_stmts pv sv bound fl k sc init) as [[sc1 fl1]|] eqn:Hfi; [|discriminate Hcheck].
+      apply andb_prop in Hcheck as [Hcheck Hgs].
       destruct (frag_fexpr pv sv bound fl1 k sc1 fx) as [K|] eqn:Hfe; [|discriminate Hcheck].
-      destruct (IHs fl k (rev init_rev) ctx c cs c0 sc (sc1, fl1) l Hmi Hfi) as (b1 & l1 & Hs1).
+      apply take_init_app in Hti. rewrite Hti in Hmi.
+      apply mapM_app_split in Hmi as (cs1 & cm & cs2 & Hmi1 & Hmi2 & ->). rewrite concat_app, <- app_assoc.
+      destruct (IHs fl k init ctx c cs1 cm sc (sc1, fl1) l Hmi1 Hfi) as (b1 & l1 & Hs1).
+      assert (Hguards : forall l0, exists bg lg, cshape u l0 (concat cs2) bg lg cm c0).
+      { clear - He Hx Hgs Hmi2. revert cs2 cm Hmi2 Hgs. induction guards as [|G gs IHg]; intros cs2 cm Hmi2 Hgs l0.
+        - destruct (mapM_nil_ok _ _ _ _ Hmi2) as [-> ->]. eexists _, _. apply cshape_nil.
+        - cbn [forallb] in Hgs. apply andb_prop in Hgs as [HG Hgs].
+          apply mapM_cons_ok in Hmi2 as (y & c1 & ys & Hy & Hys & ->). cbn [concat].
+          destruct (guard_parts G) as [[cnd gfx]|] eqn:HGp; [|discriminate HG].
+          apply andb_prop in HG as [HG Hk4]. apply andb_prop in HG as [HG _]. apply andb_prop in HG as [_ Hfc].
+          destruct (frag_fexpr pv sv bound fl1 k sc1 gfx) as [K'|] eqn:Hff; [|discriminate Hk4].
+          destruct (L_guard g He Hx fl1 k G cnd gfx K' ctx cm y c1 sc1 l0 HGp Hy Hfc Hff) as (bg1 & lg1 & Hsg1).
+          destruct (IHg ys c1 Hys Hgs lg1) as (bg2 & lg2 & Hsg2).
+          eexists _, _. eapply cshape_app; eassumption. }
+      destruct (Hguards l1) as (bg & lg & Hsg).
       destruct last; try discriminate Htl.
       * (* ret fx *)
         destruct value as [value|]; [|discriminate Htl]. cbn [tail_fexpr] in Htl. inversion Htl; subst fx.
         destruct g as [|g']; [discriminate Hm0|]. cbn [statement] in Hm0. mon Hm0. destruct a as [cv rv]. cbn [fst snd] in *.
-        destruct (IHXp fl1 g' eq_refl k value K ctx c0 cv rv c' sc1 l1 Hm Hfe) as (b2 & l2 & Hs2 & _).
+        destruct (Hx g' ltac:(lia) fl1 k value K ctx c0 cv rv c' sc1 lg Hm Hfe) as (b2 & l2 & Hs2 & _).
         pose proof Hs2 as (_ & ? & _).
-        eexists _, _. eapply cshape_app; [exact Hs1|]. eapply cshape_app; [exact Hs2|].
+        eexists _, _. eapply cshape_app; [exact Hs1|]. eapply cshape_app; [exact Hsg|]. eapply cshape_app; [exact Hs2|].
         apply (cshape_plain u l2 (IReturn rv) c' c'); [lia | reflexivity | reflexivity | reflexivity].
       * cbn [tail_fexpr] in Htl. inversion Htl; subst fx.
         mon Hm0. destruct a as [cv rv]. cbn [fst snd] in *.
-        destruct (IHX fl1 k value K ctx c0 cv rv c' sc1 l1 Hm Hfe) as (b2 & l2 & Hs2 & _).
+        destruct (IHX fl1 k value K ctx c0 cv rv c' sc1 lg Hm Hfe) as (b2 & l2 & Hs2 & _).
         pose proof Hs2 as (_ & ? & _).
-        eexists _, _. eapply cshape_app; [exact Hs1|]. eapply cshape_app; [exact Hs2|].
+        eexists _, _. eapply cshape_app; [exact Hs1|]. eapply cshape_app; [exact Hsg|]. eapply cshape_app; [exact Hs2|].
         apply (cshape_plain u l2 (IReturn rv) c' c'); [lia | reflexivity | reflexivity | reflexivity].
 Qed.
 
@@ -789,7 +868,7 @@ Proof.
     assert (Hs0 : forall fl, L_stmts pv sv bound u fl O).
     { apply L_stmts_of; [intros fl; apply L_stmt_zero | intros fl g2 H; discriminate H | intros fl g2 H; discriminate H]. }
     intros fl. split; [apply L_expr_zero|]. split; [apply L_stmt_zero|]. split; [apply Hs0|].
-    split; [|apply L_fexpr_zero]. apply L_fb_of; [intros fl'; apply L_expr_zero | exact Hs0 | apply L_fexpr_zero | intros fl' g' H; discriminate H].
+    split; [|apply L_fexpr_zero]. apply L_fb_of; [intros g' Hg' fl'; assert (g' = O) by lia; subst; apply L_expr_zero | exact Hs0 | intros g' Hg' fl'; assert (g' = O) by lia; subst; apply L_fexpr_zero].
   - destruct (Nat.eq_dec g' (S g)) as [->|Hne]; [|apply IH; lia].
     assert (He : forall g', (g' <= g)%nat -> forall fl, L_expr pv sv bound u fl g') by (intros g'' H fl; apply IH; exact H).
     assert (Hs : forall fl, L_stmts pv sv bound u fl g) by (intros fl; apply (IH g (Nat.le_refl g) fl)).
@@ -801,7 +880,8 @@ Proof.
     assert (Hss1 : forall fl, L_stmts pv sv bound u fl (S g)).
     { apply L_stmts_of; [exact Hst1 | intros fl g2 Heq; apply (IH g2); lia | intros fl g2 Heq; apply (IH g2); lia]. }
     intros fl. split; [apply He1|]. split; [apply Hst1|]. split; [apply Hss1|]. split; [|apply Hx1]. apply L_fb_of; try assumption.
-    intros fl' g' Heq. inversion Heq; subst g'. apply Hx.
+    + intros g' Hg' fl'. destruct (Nat.eq_dec g' (S g)) as [->|Hne']; [apply He1 | apply He; lia].
+    + intros g' Hg' fl'. destruct (Nat.eq_dec g' (S g)) as [->|Hne']; [apply Hx1 | apply (IH g'); lia].
 Qed.
 
 Theorem L_expr_all fl g : L_expr pv sv bound u fl g.
